@@ -4,6 +4,9 @@ package main
 // scripted packet producer and the real LanceroSource on a simulated card, both started and stopped through the real
 // SourceControl.  Requests of different kinds are served during the run; each must be answered exactly once, data must
 // keep flowing, and the end of the run (Stop, or — Abaco — the packet stream ending by itself) must not wedge or crash.
+// Further source kinds: the real RoachSource over loopback UDP (configured through ConfigureRoachSource) and the simulated
+// sources configured through their RPCs.  `map` histories load a pixel map (op M npix) and issue WriteControl START / STOP:
+// what START answers depends on the source kind (pixels = nchan / channelsPerPixel; every channel number needs a pixel).
 
 import (
 	"fmt"
@@ -21,6 +24,23 @@ import (
 // c11HWReq builds request number k (kinds rotate) for a source with nchan channels: all valid, all answered with success.
 func c11HWReq(k, nchan int, h *lcH) (string, func() error) {
 	var reply bool
+	if k >= 1000 { // map histories: 1000+npix = load a map of npix pixels, 2000 = WriteControl START (LJH 2.2), 2001 = STOP
+		switch {
+		case k >= 2000:
+			req := k - 2000
+			return fmt.Sprintf("W %d 0 1", req), func() error {
+				cfg := &dastard.WriteControlConfig{Request: []string{"START", "STOP"}[req], WriteLJH22: true,
+					Path: filepath.Join(h.wrDir, "data")}
+				return h.sc.WriteControl(cfg, &reply)
+			}
+		default:
+			npix := k - 1000
+			return fmt.Sprintf("M %d", npix), func() error {
+				h.sc.VerifLoadMap(npix)
+				return nil
+			}
+		}
+	}
 	switch k % 5 {
 	case 0:
 		all := make([]int, nchan)
@@ -52,39 +72,114 @@ func c11HWReq(k, nchan int, h *lcH) (string, func() error) {
 	}
 }
 
-func c11HW(idx int, r *Rng, forceSelf bool) (string, func() string) {
-	src := []string{"abaco", "abaco", "lancero"}[r.Intn(3)]
+// c11HW: mode 0 = a random source kind and history, 1 = the Abaco packet stream ends by itself, 2.. = map histories on
+// a fixed source kind (2 roach, 3 lancero, 4 abaco, 5 tri, 6 sim).
+func c11HW(idx int, r *Rng, mode int) (string, func() string) {
+	src := []string{"abaco", "abaco", "lancero", "roach", "tri", "sim"}[r.Intn(6)]
 	end := "stop"
-	if forceSelf {
-		src, end = "abaco", "self"
+	withMap := r.Chance(50)
+	switch mode {
+	case 1:
+		src, end, withMap = "abaco", "self", false
+	case 2, 3, 4, 5, 6:
+		src, withMap = []string{"roach", "lancero", "abaco", "tri", "sim"}[mode-2], true
 	}
-	nreq := r.Range(1, 5)
-	first := r.Intn(5)
-	nchan := 4
-	if src == "lancero" {
-		nchan = 8
+	nchan, cpp, chan0 := 4, 1, 0
+	switch src {
+	case "lancero":
+		nchan, cpp, chan0 = 8, 2, 1
+	case "tri", "sim":
+		nchan = 2 // (AnySource.PrepareChannels numbers the channels from 0 when the source starts)
+	case "abaco":
+		chan0 = r.Pick(0, 1, 1) // channel offset in the packets' headers = the first channel number
 	}
+	var ks []int
+	if withMap {
+		// load a map (fitting nchan/channelsPerPixel, or not), START, and whatever else; a refused START unloads the map,
+		// so the START after it goes through
+		pix := nchan / cpp
+		n := r.Range(3, 7)
+		for len(ks) < n {
+			switch c := r.Intn(10); {
+			case c < 3 || len(ks) == 0:
+				np := r.Pick(pix, pix, pix, pix-1, pix+1, nchan, 2*nchan, 0)
+				ks = append(ks, 1000+np, 2000)
+			case c < 5:
+				ks = append(ks, 2000)
+			case c < 7:
+				ks = append(ks, 2001)
+			default:
+				ks = append(ks, r.Intn(5))
+			}
+		}
+	} else {
+		nreq := r.Range(1, 5)
+		first := r.Intn(5)
+		for i := 0; i < nreq; i++ {
+			ks = append(ks, first+i)
+		}
+	}
+	nreq := len(ks)
 	var sb strings.Builder
-	fmt.Fprintf(&sb, "kind hw src %s nchan %d end %s reqs %d", src, nchan, end, nreq)
-	for i := 0; i < nreq; i++ {
-		t, _ := c11HWReq(first+i, nchan, nil)
+	fmt.Fprintf(&sb, "kind hw src %s nchan %d chan0 %d end %s reqs %d", src, nchan, chan0, end, nreq)
+	for _, k := range ks {
+		t, _ := c11HWReq(k, nchan, nil)
 		sb.WriteString(" " + t)
 	}
 	return sb.String(), func() string {
 		dirp := c11Dir(idx)
 		defer os.RemoveAll(dirp)
 		h := lcNew("tri", idx)
+		h.wrDir = dirp
 		sc := dastard.VerifNewSourceControl(dastard.NewErroringSource(), 8, 32)
 		sc.VerifSetActive(false)
 		h.sc = sc
 		_, _, abaco, lanc := sc.VerifC17Sources()
 		name := "ABACOSOURCE"
-		gen := &c10Abaco{nchan: nchan, fpp: 16, ppt: 20}
+		gen := &c10Abaco{nchan: nchan, fpp: 16, ppt: 20, chan0: chan0}
+		var rok bool
+		switch src {
+		case "roach":
+			// the real RoachSource behind the real ConfigureRoachSource, fed by a sender goroutine over loopback UDP
+			name = "ROACHSOURCE"
+			h.kind = "roach"
+			host := ""
+			for try := 0; try < 10 && host == ""; try++ {
+				cand := fmt.Sprintf("127.0.0.1:%d", 22000+(os.Getpid()*41+idx*13+try*7919+17)%30000)
+				if portFree(cand) == 1 && sc.ConfigureRoachSource(&dastard.RoachSourceConfig{HostPort: []string{cand},
+					Rates: []float64{1e5}, AbacoUnwrapOptions: dastard.AbacoUnwrapOptions{RescaleRaw: true, Unwrap: true,
+						ResetAfter: 20000, PulseSign: 1}}, &rok) == nil {
+					host = cand
+				}
+			}
+			if host == "" {
+				return "NUMS 0 RET 0 PROBE 0 " + h.finish(true)
+			}
+			var samp uint64 = 1000
+			snd := startSender(host, func() [][]byte {
+				out := make([][]byte, 0, 4)
+				for i := 0; i < 4; i++ {
+					out = append(out, roachDatagram(nchan, 50, samp))
+					samp += 50
+				}
+				return out
+			})
+			defer snd.halt()
+		case "tri":
+			name = "TRIANGLESOURCE"
+			h.kind = "tri"
+			sc.ConfigureTriangleSource(&dastard.TriangleSourceConfig{Nchan: nchan, SampleRate: 20000, Min: 100, Max: 150}, &rok)
+		case "sim":
+			name = "SIMPULSESOURCE"
+			h.kind = "sim"
+			sc.ConfigureSimPulseSource(&dastard.SimPulseSourceConfig{Nchan: nchan, SampleRate: 20000, Pedestal: 1000,
+				Amplitudes: []float64{5000}, Nsamp: 100}, &rok)
+		}
 		if src == "abaco" {
 			sample := []*packets.Packet{gen.packet(), gen.packet(), gen.packet(), gen.packet()}
 			dastard.VerifC17Abaco(abaco, sample, gen.next)
 			h.kind, h.ds = "abaco", abaco
-		} else {
+		} else if src == "lancero" {
 			cg := `{"SETT": 18, "seqln": 4, "lsync": 1000, "testpattern": 2, "propagationdelay": 9, "NSAMP": 4, "carddelay": 7, "XPT": 3}`
 			cgpath := filepath.Join(dirp, "cringeGlobals.json")
 			os.WriteFile(cgpath, []byte(cg), 0644)
@@ -112,10 +207,17 @@ func c11HW(idx int, r *Rng, forceSelf bool) (string, func() string) {
 		s := h.spawn("S1", func() error { return sc.Start(&name, &ok) })
 		rets := []int{}
 		probe := 0
+		var nums []int
 		if s.wait(5*time.Second) && s.ret == 0 {
+			if src != "abaco" && src != "lancero" {
+				h.ds = sc.VerifActiveSource()
+			}
+			if cn, ok := h.ds.(interface{ VerifChanNumbers() []int }); ok {
+				nums = cn.VerifChanNumbers()
+			}
 			waitBlocks(2)
 			for i := 0; i < nreq; i++ {
-				_, call := c11HWReq(first+i, nchan, h)
+				_, call := c11HWReq(ks[i], nchan, h)
 				rets = append(rets, h.timed(call))
 				if rets[i] == 2 {
 					break
@@ -149,6 +251,6 @@ func c11HW(idx int, r *Rng, forceSelf bool) (string, func() string) {
 			// the Lancero producer has no life-cycle sites: only replies, progress and the final observations are judged
 			out = "TR 0 CALLS 0 " + out[strings.Index(out, "FIN "):]
 		}
-		return fmt.Sprintf("RET %s PROBE %d %s", ints(rets), probe, out)
+		return fmt.Sprintf("NUMS %s RET %s PROBE %d %s", ints(nums), ints(rets), probe, out)
 	}
 }
